@@ -75,10 +75,28 @@ def main():
             if fb:
                 broken.append("forbidden tokens in Lean sources: " + "; ".join(fb[:5]))
     # 3: correspondence + oracles on the implementation
+    # (a watchdog: an implementation that no longer comes back from a call is a violation to report, not a check that hangs)
+    import signal
+
+    class CheckTimeout(BaseException):
+        pass
+
+    def on_alarm(signum, frame):
+        raise CheckTimeout()
+    limit = int(os.environ.get("VERIF_RUN_LIMIT", "1500" if a.tier == "quick" else "5400"))
+    signal.signal(signal.SIGALRM, on_alarm)
+    signal.alarm(limit)
     try:
         mod.run(ctx)
+    except CheckTimeout:
+        last = getattr(ctx, "last_oracle", None)
+        ctx.oracle("check-terminates", False, dict(kind="watchdog", limit_s=limit, after_oracle=last[0] if last else None, after_input=last[1] if last else None,
+                                                  stack=traceback.format_exc()[-1200:]),
+                   what="the run did not finish within %d s: a call into the implementation does not return (stack tail in the replay file)" % limit)
     except Exception as e:  # harness crash = broken tie, never silently OK
         broken.append("harness exception: %r\n%s" % (e, traceback.format_exc()[-1500:]))
+    finally:
+        signal.alarm(0)
     if ctx.corr_fail and os.environ.get("VERIF_DUMP_CORR"):
         for c in ctx.corr_fail[:int(os.environ["VERIF_DUMP_CORR"])]:
             print("  corr-dump: " + json.dumps(c, default=str))
